@@ -1,10 +1,15 @@
-"""E6 node program: one fresh interpreter of the value-exchange cluster.
+"""E6 node program: one interpreter of the value-exchange cluster.
 
 Started by engines/cluster.py as `/venv/bin/python node_main.py` with a PYTHONHASHSEED chosen by the
 coordinator and VERIF_REPO pointing at the tree under test.  It imports the five Cirq packages from that
-tree and then serves request frames (4-byte big-endian length + pickle of a dict) read from fd 0, answering
-each with one frame on fd 1.  It never acts on its own: every effect is the answer to one request, so a run
-is a pure function of the coordinator's tape.
+tree and then serves request frames (4-byte big-endian length + pickle of a dict), answering each with one
+frame.  It never acts on its own: every effect is the answer to one request, so a run is a pure function of
+the coordinator's tape.
+
+Two ways to run it.  `node_main.py` (spawn mode): this process is the node, frames on fd 0 / fd 1.
+`node_main.py --zygote <unix socket>` (the default way, see `zygote()` at the end): this process imports
+everything and then only forks; every accepted connection gets a forked child which is the node and serves
+frames on that connection.
 
 The *payloads under test* (JSON text, gzip JSON, pickles of Cirq values, repr text) travel as opaque bytes
 inside the frames.  Comparisons that need live objects (==, hash, dict membership, unitary bit-equality,
@@ -185,8 +190,6 @@ _EIGEN = {"XPow": cirq.XPowGate, "YPow": cirq.YPowGate, "ZPow": cirq.ZPowGate, "
           "ISwapPow": cirq.ISwapPowGate, "XXPow": cirq.XXPowGate, "YYPow": cirq.YYPowGate,
           "ZZPow": cirq.ZZPowGate, "CCXPow": cirq.CCXPowGate, "CCZPow": cirq.CCZPowGate}
 
-_CLIFFORDS = ("I", "X", "Y", "Z", "H", "S", "X_sqrt", "X_nsqrt", "Y_sqrt", "Y_nsqrt", "Z_sqrt", "Z_nsqrt")
-
 
 class Builder:
     """Interprets one recipe tree.  `share` nodes are memoised per build, so the same *instance* appears
@@ -261,6 +264,11 @@ class Builder:
 
     def b_keycond(self, key, index):
         return cirq.KeyCondition(self.build(key), index)
+
+    def b_bitmaskcond(self, key, index, target_value, equal_target, bitmask):
+        k = self.build(key) if isinstance(key, list) else key
+        return cirq.BitMaskKeyCondition(k, index=index, target_value=target_value, equal_target=equal_target,
+                                        bitmask=bitmask)
 
     def b_sympycond(self, a, op, b):
         x, y = sympy.Symbol(a), (sympy.Symbol(b) if isinstance(b, str) else b)
@@ -473,7 +481,20 @@ class Builder:
     def b_dict(self, pairs):
         return {k: self.build(v) for k, v in pairs}
 
-    # -- stored examples ------------------------------------------------------------------------------
+    # -- values derived from other values through public methods --------------------------------------
+    def b_derive(self, method, args, base):
+        return derive(self.build(base), method, args)
+
+    # -- stored examples, and stored examples with mutated literals ------------------------------------
+    def b_mutrepr(self, pkg, name, text):
+        """A stored .repr whose literals the coordinator has changed (ast).  Whatever the constructors accept is
+        a legal instance built with non-default / falsy / unsorted arguments; what they refuse is discarded."""
+        _import_named_contrib_modules(text)
+        try:
+            return eval(text, dict(EVAL_GLOBALS), {})
+        except Exception as e:  # noqa: BLE001
+            raise Rejected(type(e).__name__) from None
+
     def b_corpus(self, pkg, name):
         path = os.path.join(ROOT, CORPUS_DIRS[pkg], name + ".repr")
         with open(path) as f:
@@ -496,8 +517,163 @@ def _import_named_contrib_modules(text: str) -> None:
             pass
 
 
+class Rejected(Exception):
+    """The constructors refused a mutated stored representation: not a value, nothing to check."""
+
+
+class NotApplicable(Exception):
+    """A derivation does not apply to this value."""
+
+
 def build_value(recipe):
     return Builder().build(recipe)
+
+
+# ---------------------------------------------------------------------------------------------
+# derivations: a new value obtained from a held one through a public method
+# ---------------------------------------------------------------------------------------------
+_DERIVE_KEYS = ("m", "m0", "m1", "k", "a", "b", "x_meas")
+
+
+def _map_qid(q):
+    return cirq.NamedQid(f"t_{q}", dimension=q.dimension)
+
+
+def _derive_one(x, method: str, args):
+    """The derivation `method` applied to one value.  Raises NotApplicable where the method does not exist for
+    the value's type; any other exception is the method's own."""
+    is_circuit = isinstance(x, cirq.AbstractCircuit)
+    is_op = isinstance(x, cirq.Operation)
+    if method == "with_tags":
+        if not (is_circuit or is_op or isinstance(x, cirq.Moment)):
+            raise NotApplicable
+        return x.with_tags(*[build_value(t) for t in args])
+    if method == "freeze":
+        if not is_circuit:
+            raise NotApplicable
+        return x.freeze()
+    if method == "unfreeze":
+        if not is_circuit:
+            raise NotApplicable
+        return x.unfreeze()
+    if method == "untagged":
+        if not (is_circuit or is_op):
+            raise NotApplicable
+        return x.untagged
+    if method == "key_mapping":
+        if not _is_cirq_obj(x) or not cirq.measurement_key_names(x):
+            raise NotApplicable
+        r = cirq.with_measurement_key_mapping(x, {k: k + "_d" for k in _DERIVE_KEYS})
+        if r is NotImplemented:
+            raise NotApplicable
+        return r
+    if method == "key_path_prefix":
+        if isinstance(x, cirq.MeasurementKey):
+            return x.with_key_path_prefix(*args)
+        if not _is_cirq_obj(x) or not (cirq.measurement_key_names(x) or cirq.control_keys(x)):
+            raise NotApplicable
+        r = cirq.with_key_path_prefix(x, tuple(args))
+        if r is NotImplemented:
+            raise NotApplicable
+        return r
+    if method == "transform_qubits":
+        if not (is_op or isinstance(x, (cirq.Circuit, cirq.Moment))):
+            raise NotApplicable
+        return x.transform_qubits(_map_qid)
+    if method == "with_qubits":
+        if not is_op or len(x.qubits) < 2:
+            raise NotApplicable
+        return x.with_qubits(*reversed(x.qubits))
+    if method == "controlled_by":
+        if is_op:
+            return x.controlled_by(cirq.NamedQubit("ctl"))
+        if isinstance(x, cirq.Gate):
+            return x.controlled(1)
+        raise NotApplicable
+    if method == "inverse":
+        if not _is_cirq_obj(x):
+            raise NotApplicable
+        r = cirq.inverse(x, None)
+        if r is None:
+            raise NotApplicable
+        return r
+    if method == "pow":
+        if not (is_op or isinstance(x, cirq.Gate)):
+            raise NotApplicable
+        r = cirq.pow(x, _num(args[0]), None)
+        if r is None:
+            raise NotApplicable
+        return r
+    if method == "with_operation":
+        if not isinstance(x, cirq.Moment):
+            raise NotApplicable
+        return x.with_operation(cirq.X(cirq.NamedQubit("extra")))
+    if method == "repeat":
+        if not isinstance(x, cirq.CircuitOperation):
+            raise NotApplicable
+        return x.repeat(args[0])
+    if method == "with_params":
+        if not isinstance(x, cirq.CircuitOperation):
+            raise NotApplicable
+        return x.with_params({sympy.Symbol(k): _num(v) for k, v in args})
+    if method == "replace":
+        if not isinstance(x, cirq.CircuitOperation):
+            raise NotApplicable
+        return x.replace(parent_path=tuple(args))
+    if method == "resolve":
+        if not _is_cirq_obj(x) or not cirq.is_parameterized(x):
+            raise NotApplicable
+        return cirq.resolve_parameters(x, {k: _num(v) for k, v in args})
+    if method == "with_dimension":
+        if not isinstance(x, cirq.Qid):
+            raise NotApplicable
+        return x.with_dimension(args[0])
+    if method == "on":
+        if not isinstance(x, cirq.Gate):
+            raise NotApplicable
+        shape = cirq.qid_shape(x)
+        return x.on(*[cirq.LineQid(i, dimension=d) for i, d in enumerate(shape)])
+    if method == "with_classical_controls":
+        if not is_op or cirq.measurement_key_names(x):
+            raise NotApplicable
+        return x.with_classical_controls(*[build_value(c) if isinstance(c, list) else c for c in args])
+    raise ValueError(f"unknown derivation {method!r}")
+
+
+def derive(v, method: str, args):
+    """Top-level lists (most stored examples are lists of instances) are derived element by element; elements
+    the method does not apply to stay as they are."""
+    if isinstance(v, list):
+        out, n = [], 0
+        for x in v:
+            try:
+                out.append(_derive_one(x, method, args))
+                n += 1
+            except NotApplicable:
+                out.append(x)
+        if not n:
+            raise NotApplicable
+        return out
+    return _derive_one(v, method, args)
+
+
+def derive_family(v) -> str:
+    x = v[0] if isinstance(v, list) and v else v
+    if isinstance(x, cirq.AbstractCircuit):
+        return "circuit"
+    if isinstance(x, cirq.CircuitOperation):
+        return "circuitop"
+    if isinstance(x, cirq.Operation):
+        return "op"
+    if isinstance(x, cirq.Moment):
+        return "moment"
+    if isinstance(x, cirq.Gate):
+        return "gate"
+    if isinstance(x, cirq.MeasurementKey):
+        return "mkey"
+    if isinstance(x, cirq.Qid):
+        return "qid"
+    return "other" if _is_cirq_obj(x) else "none"
 
 
 # ---------------------------------------------------------------------------------------------
@@ -813,11 +989,45 @@ def op_drop(req):
     return {}
 
 
-def op_build(req):
-    v = build_value(req["recipe"])
-    HELD[req["slot"]] = v
+def _describe(v) -> dict:
     return {"type": _tname(v), "cirq_top": _cirq_top(v), "is_qid": isinstance(v, cirq.Qid),
-            "n": len(v) if isinstance(v, (list, tuple)) else None}
+            "n": len(v) if isinstance(v, (list, tuple)) else None, "family": derive_family(v)}
+
+
+def op_build(req):
+    try:
+        v = build_value(req["recipe"])
+    except Rejected as r:
+        return {"rejected": True, "exc_type": str(r)}
+    HELD[req["slot"]] = v
+    out = _describe(v)
+    out["rejected"] = False
+    return out
+
+
+def op_derive(req):
+    """A value derived from a held (possibly cache-touched, imported, copied) value must equal -- and hash like,
+    and be found by -- the same derivation of a freshly built, untouched equal value."""
+    v = HELD[req["slot"]]
+    method, args = req["method"], req["args"]
+    fresh = build_value(req["recipe"])
+    try:
+        ref = derive(fresh, method, args)
+    except NotApplicable:
+        return {"na": True, "why": "not-applicable"}
+    except Exception as e:  # noqa: BLE001 - the method refuses this value (not invertible, ...): nothing derived
+        return {"na": True, "why": "refused:" + type(e).__name__}
+    try:
+        d = derive(v, method, args)
+    except Exception as e:  # noqa: BLE001
+        rec = _failure_record("derive:" + method, e)
+        rec["history_dependent"] = True
+        raise SutFailure(rec) from None
+    HELD[req["new_slot"]] = d
+    out = _describe(d)
+    out["na"] = False
+    out["verdict"] = compare(d, ref, "derive:" + method)
+    return out
 
 
 def _touch_one(v, kind: str):
@@ -942,8 +1152,8 @@ def op_import(req):
     else:
         v = _import(payload, t)
     HELD[req["slot"]] = v
-    out = {"unsupported": False, "type": _tname(v), "verdict": compare(v, fresh, "import:" + t),
-           "behaviour": None, "idempotent": None}
+    out = {"unsupported": False, "type": _tname(v), "family": derive_family(v),
+           "verdict": compare(v, fresh, "import:" + t), "behaviour": None, "idempotent": None}
     if t in ("json", "gzip"):
         text = payload if t == "json" else gzip.decompress(payload)
         again = _sut("import:" + t + ":re-export", cirq.to_json, v).encode("utf-8")
@@ -1057,7 +1267,8 @@ def op_corpus_read(req):
     jobj = _sut("corpus:read_json", lambda: cirq.read_json(json_text=jtext))
     _import_named_contrib_modules(rtext)
     robj = _sut("corpus:eval-repr", eval, rtext, dict(EVAL_GLOBALS), {})
-    out = {"eq": _sut("corpus:eq", _eq, jobj, robj), "outward": None, "type": _tname(jobj)}
+    out = {"eq": _sut("corpus:eq", _eq, jobj, robj), "outward": None, "type": _tname(jobj),
+           "family": derive_family(jobj), "cirq_top": _cirq_top(jobj)}
     if not inward:
         again = _sut("corpus:to_json", cirq.to_json, robj)
         out["outward"] = (json.loads(again) == json.loads(jtext))
@@ -1066,7 +1277,8 @@ def op_corpus_read(req):
     return out
 
 
-OPS = {"hello": op_hello, "reset": op_reset, "drop": op_drop, "build": op_build, "touch": op_touch,
+OPS = {"hello": op_hello, "reset": op_reset, "drop": op_drop, "build": op_build, "derive": op_derive,
+       "touch": op_touch,
        "copy": op_copy, "export": op_export, "import": op_import, "report": op_report,
        "sort_qids": op_sort_qids, "corpus_read": op_corpus_read}
 
